@@ -40,3 +40,76 @@ fn h_w_fit_test() {
 fn h_w_refragmentation() {
     w_refragmentation::refragmenting_a_middle_fragment_keeps_more_fragments_set();
 }
+
+// ---------------------------------------------------------------------------
+// BOUNDED stand-in for the fragmenter (kind=witness: never run by Kani, never counted as proved).  Run on the real code only
+// when the Verus unit `frag` cannot ingest a changed function: 1500 pseudo-random datagrams (payload 0..=4000 octets, DF on
+// one in eight) fragmented for a random MTU (68..=1500, all residues mod 8), every piece fragmented again for a smaller
+// MTU, and once more; after every pass the pieces are compared with the partition C10 describes, relative to the ORIGINAL
+// datagram.
+// ---------------------------------------------------------------------------
+#[cfg(vx_replay)]
+fn vx_check_partition(original: Ipv4Header, payload: &[u8], pieces: &[Fragment], mtu: Mtu, what: &str) {
+    let mut position = 0usize;
+    for (i, (header, body)) in pieces.iter().enumerate() {
+        assert!(header.total_length <= mtu, "{what}: piece {i} exceeds the MTU {mtu}");
+        assert_eq!(header.total_length as usize, 20 + body.len(), "{what}: piece {i} total length");
+        assert_eq!(header.fragment_offset as usize * 8, original.fragment_offset as usize * 8 + position, "{what}: piece {i} has the wrong offset");
+        assert_eq!(body.to_vec(), payload[position..position + body.len()], "{what}: piece {i} has the wrong content");
+        position += body.len();
+        let expect_last = position == payload.len() && original.flags.is_last_fragment();
+        assert_eq!(header.flags.is_last_fragment(), expect_last, "{what}: piece {i} has the wrong more-fragments flag");
+        assert!(position == payload.len() || body.len() % 8 == 0, "{what}: piece {i} is not a multiple of 8 octets although more follow");
+        let mut normalized = *header;
+        normalized.total_length = original.total_length;
+        normalized.fragment_offset = original.fragment_offset;
+        normalized.flags = original.flags;
+        assert_eq!(normalized, original, "{what}: piece {i} changed other header fields");
+    }
+    assert_eq!(position, payload.len(), "{what}: the pieces do not cover the payload");
+}
+
+//# id=witness.fragmenter_matches_the_partition_model props=C10 kind=witness pair=frag.Fragmentation.fragment.faithful_partition,frag.Fragmentation.fragment.safety,frag.fragment.otherwise_faithful_partition,frag.fragment.fits_passes_through_unchanged,frag.fragment.too_big_and_df_is_discarded,frag.fragment.safety
+#[cfg(vx_replay)]
+#[test]
+fn h_w_frag_model() {
+    use crate::protocols::ipv4::test_header_builder::TestHeaderBuilder;
+    let mut s: u64 = 0x0123_4567_89ab_cdef;
+    let mut next = |n: usize| { s = s.wrapping_mul(6364136223846793005).wrapping_add(1442695040888963407); ((s >> 33) as usize) % n.max(1) };
+    // one pass: fragment `piece` for `mtu`, compare with the model, return the pieces (a datagram that fits comes back whole)
+    fn pass(header: Ipv4Header, body: &Message, mtu: Mtu, what: &str) -> Option<Vec<Fragment>> {
+        let bytes = body.to_vec();
+        match fragment(header, body.clone(), mtu) {
+            Fragments::DontFragment((h, b)) => {
+                assert!(header.total_length <= mtu, "{what}: a datagram of {} octets was passed through for MTU {mtu}", header.total_length);
+                assert_eq!((h, b.to_vec()), (header, bytes), "{what}: a datagram that fits was changed");
+                Some(vec![(header, body.clone())])
+            }
+            Fragments::Discard => {
+                assert!(header.total_length > mtu && !header.flags.may_fragment(), "{what}: discarded although it fits or may be fragmented");
+                None
+            }
+            Fragments::Fragmented(fs) => {
+                assert!(header.total_length > mtu && header.flags.may_fragment(), "{what}: fragmented although it fits or forbids fragmentation");
+                vx_check_partition(header, &bytes, &fs, mtu, what);
+                Some(fs)
+            }
+        }
+    }
+    for case in 0..1500 {
+        let len = match next(4) { 0 => next(64), 1 => 1400 + next(200), _ => next(4001) } as u16;
+        let bytes: Vec<u8> = (0..len).map(|i| (i as u32 * 7 + case as u32) as u8).collect();
+        let mut header = TestHeaderBuilder::new(len).ihl().build();
+        if next(8) == 0 { header.flags.set_may_fragment(false); }
+        let mtu1 = 68 + next(1433) as Mtu;
+        let Some(first) = pass(header, &Message::new(bytes), mtu1, &format!("case {case} pass 1 (len {len}, mtu {mtu1})")) else { continue };
+        for (h1, b1) in first.iter() {
+            let mtu2 = 68 + next((mtu1 - 67) as usize) as Mtu;
+            let Some(second) = pass(*h1, b1, mtu2, &format!("case {case} pass 2 (mtu {mtu1} then {mtu2})")) else { continue };
+            for (h2, b2) in second.iter() {
+                let mtu3 = 68 + next((mtu2 - 67) as usize) as Mtu;
+                let _ = pass(*h2, b2, mtu3, &format!("case {case} pass 3 (mtu {mtu1}, {mtu2}, {mtu3})"));
+            }
+        }
+    }
+}
